@@ -720,6 +720,12 @@ impl WriterSet {
             self.segment_size,
             self.compression,
         )?;
+        // Appends waiting on the old segment are covered by the sync above. Start a new watch for
+        // the new segment: its offsets start over, so the old segment's final (larger) offset
+        // would acknowledge its first writes before they are synced, and its first (smaller)
+        // offsets would hide the final offset from old waiters that were not polled yet.
+        let (sync_tx, _) = watch::channel(self.writer.write_offset());
+        self.sync_tx = sync_tx;
         let old_reader = mem::replace(
             &mut self.reader,
             BucketSegmentReader::open(
